@@ -412,6 +412,11 @@ class Live(object):
             return M.Message(22, bytearray([24, 0, 0, 1, 0]))            # a KeyUpdate in TLS <= 1.2
         raise ValueError(kind)
 
+    def inject_fits(self, a, m):
+        """an injected record must go out as ONE record of the injecting side (its _sendMsg would fragment
+        a longer one, and a record above the peer's record_size_limit is a different violation)"""
+        return len(self.inject_msg(m).write()) <= self.conn(a).recordSize
+
     def ctx_for(self, n):
         for b, k in self.ctxmap.items():
             if k == n:
